@@ -414,7 +414,8 @@ example : ∃ s, Reach .fixed s ∧ bcPending s 11 ∧ stalledLeft (fun _ => tru
 
 `Kit.Broadcaster.acceptRun` (model side, `KitModel/BroadcasterAccept.lean`) is the whole decision
 procedure of the driver: state-set simulation with τ-closure, optional state-merging reduction
-`norm` (`reduce`), optional observed lock order (`hooked`: `bcAcquire` is then never silent), a cap
+`norm` (`reduce`), optional observed lock order (`hooked`: `bcAcquire` is then never silent), optional eager
+internal steps (`eager`: states with an enabled `Label.eager` step are replaced by their successor), a cap
 and a fuel that can only make it drop states.  `Exec v hooked tr ls s`: the labels `ls` lead from
 `init` to `s`, each is silent or is one of the labels the next observation of `tr` stands for. -/
 
@@ -430,32 +431,33 @@ theorem reduction_sound {v : Variant} (hooked : Bool) {s : State} (hr : Reach v 
 
 /-- `accepts_sound`: every state the acceptor keeps after a trace is the normal form of the end
 state of an execution of the LTS from `init` whose observable projection is exactly that trace. -/
-theorem accepts_sound (v : Variant) (reduce hooked : Bool) (cap : Nat) (tr : List Obs) (x : State)
-    (h : x ∈ acceptRun v reduce hooked cap (startSet v reduce hooked cap).list tr) :
+theorem accepts_sound (v : Variant) (reduce hooked eager : Bool) (cap : Nat) (tr : List Obs)
+    (x : State)
+    (h : x ∈ acceptRun v reduce hooked eager cap (startSet v reduce hooked eager cap).list tr) :
     ∃ ls s, Exec v hooked tr ls s ∧ norm reduce s = x := by
   have := acceptRun_kept (cap := cap) tr [] _ (startSet_kept (v := v) (reduce := reduce)
-    (hooked := hooked) (cap := cap)) x h
+    (hooked := hooked) (eager := eager) (cap := cap)) x h
   simpa [Kept] using this
 
 /-- `accepted_trace_has_run`: if the driver accepts a trace, a run of `step` from the initial state
 exists whose observable projection is the trace; it ends in a reachable state (so every theorem
 above applies to it). -/
-theorem accepted_trace_has_run (v : Variant) (reduce hooked : Bool) (cap : Nat) (tr : List Obs)
-    (h : accepts v reduce hooked cap tr = true) :
+theorem accepted_trace_has_run (v : Variant) (reduce hooked eager : Bool) (cap : Nat)
+    (tr : List Obs) (h : accepts v reduce hooked eager cap tr = true) :
     ∃ ls s, Exec v hooked tr ls s ∧ runLabels v init ls = some s ∧ Reach v s := by
   unfold accepts at h
-  cases hres : acceptRun v reduce hooked cap (startSet v reduce hooked cap).list tr with
+  cases hres : acceptRun v reduce hooked eager cap (startSet v reduce hooked eager cap).list tr with
   | nil => simp [hres] at h
   | cons x rest =>
-    obtain ⟨ls, s, he, _⟩ := accepts_sound v reduce hooked cap tr x (by rw [hres]; simp)
+    obtain ⟨ls, s, he, _⟩ := accepts_sound v reduce hooked eager cap tr x (by rw [hres]; simp)
     exact ⟨ls, s, he, exec_run he, exec_reach he⟩
 
 -- non-vacuity (evaluated by the compiler; `decide` cannot run `Std.HashSet` in the kernel):
-#guard accepts .fixed true true 1000
+#guard accepts .fixed true true true 1000
   [.scall, .sret 0, .bcall 7, .bacq 7, .recv 0 7, .bret 0, .ccall, .cret] = true
-#guard accepts .fixed true true 1000
+#guard accepts .fixed true true true 1000
   [.scall, .sret 0, .bcall 7, .bacq 7, .bret 0, .ccall, .cret, .recv 0 7] = false
-#guard accepts .fixed false false 1000 [.scall, .sret 0, .bcall 7, .recv 0 7, .bret 0] = true
+#guard accepts .fixed false false false 1000 [.scall, .sret 0, .bcall 7, .recv 0 7, .bret 0] = true
 
 /-! ### The code as found deadlocks: `close_blocked_witness` -/
 
